@@ -137,7 +137,13 @@ AmoWhy(e) ==
   ELSE ""
 
 (* diagnostic only: the parsed problem should have the models of the input (same n) *)
-DumpWhy(e) == IF e.d.n = n /\ DumpModels(e.d) # mods THEN "diag:parse-dump" ELSE ""
+(* (Simplify post-condition, see CDCL.tla: the search relies on clauses that mention no variable  *)
+(* fixed at parse time - a stale false literal in a watched position is never visited)           *)
+Stale(d) == d.status # "UNSAT" /\ \E i \in 1..Len(d.cons) : \E j \in 1..Len(d.cons[i].lits) :
+               \E u \in 1..Len(d.units) : Abs(d.units[u]) = Abs(d.cons[i].lits[j])
+DumpWhy(e) == IF e.d.n = n /\ DumpModels(e.d) # mods
+              THEN "diag:parse-dump:" \o ToString(CHOOSE m \in (DumpModels(e.d) \ mods) \cup (mods \ DumpModels(e.d)) : TRUE)
+              ELSE IF Stale(e.d) THEN "diag:parse-stale" ELSE ""
 
 (* ---- white-box events attached to a call (hooks in solver/, build tag verif) ------------ *)
 (* Folded over the event list with the model set of "problem + everything appended so far"   *)
@@ -154,7 +160,7 @@ WbFold(wb, i, M, k) ==
             ELSE WbFold(wb, i + 1, {m \in M : SatC(m, WbC(e))}, k)
        ELSE IF e.k \in {"learn", "learn-pb"}
        THEN IF \A m \in M : SatC(m, WbC(e)) THEN WbFold(wb, i + 1, M, k)
-            ELSE "learned-not-entailed"
+            ELSE "learned-not-entailed:" \o ToString(CHOOSE m \in M : ~SatC(m, WbC(e)))
        ELSE IF e.k = "learn-empty"
        THEN IF {m \in M : SatLits(m, asm)} = {} THEN WbFold(wb, i + 1, M, k) ELSE "derived-false-on-satisfiable"
        ELSE WbFold(wb, i + 1, M, k)
